@@ -27,7 +27,7 @@ def run(tier):
     res2, results, hists = R.hist_cases(f"{PID}_hist", mh)
     V.model(res2, f"Result.tla scope=hist (all operation histories of length {mh})")
     if tier == "thorough":
-        res3, results3, hists3 = R.hist_cases(f"{PID}_histsim", 8, simulate="num=300", depth=9, seed=common.seed() + 1)
+        res3, results3, hists3 = R.hist_cases(f"{PID}_histsim", 8, simulate="num=100", depth=9, seed=common.seed() + 1)
         V.model(res3, "Result.tla scope=hist, simulation of length-8 histories")
         hists += hists3
     items = [(results[rid], h) for rid, h in hists]
